@@ -50,6 +50,11 @@ def main():
         output.createVariable("x", "f4", ("time", "leadtime", "location", "quantile"))
         output.variables["x"][:] = input.quantile_scores
 
+    if input.ensemble is not None and input.num_members > 0:
+        output.createDimension("ensemble_member", input.num_members)
+        output.createVariable("ensemble", "f4", ("time", "leadtime", "location", "ensemble_member"))
+        output.variables["ensemble"][:] = input.ensemble
+
     vTime = output.createVariable("time", "f8", ("time",))
     vOffset = output.createVariable("leadtime", "f4", ("leadtime",))
     vLocation = output.createVariable("location", "i4", ("location",))
@@ -72,6 +77,10 @@ def main():
 
     output.standard_name = variable.name
     output.units = unit = variable.units.replace("$", "")
+    if variable.x0 is not None:
+        output.x0 = variable.x0
+    if variable.x1 is not None:
+        output.x1 = variable.x1
 
     vobs[:] = input.obs
     vfcst[:] = input.fcst
